@@ -509,7 +509,7 @@ fn http_part(shared: &SharedReport, th: bool, a: &Args) {
                             }
                             let mut obs_disc = Disc::new();
                             obs_disc.insert(NAMES[k].to_string(), path);
-                            let obs = Obs { visited: vec![], unique: 0, count: 0, max_depth: 0, is_done: true, disc: Ok(obs_disc), assert_ok: true, join_panicked: false, class: [(NAMES[k].to_string(), if matches!(m.props[k].0, Expectation::Sometimes) { "example".to_string() } else { "counterexample".to_string() })].into_iter().collect() };
+                            let obs = Obs { visited: vec![], unique: 0, count: 0, max_depth: 0, is_done: true, disc: Ok(obs_disc), assert_ok: true, join_panicked: false, class: [(NAMES[k].to_string(), if matches!(m.props[k].0, Expectation::Sometimes) { "example".to_string() } else { "counterexample".to_string() })].into_iter().collect(), per_prop: Vec::new() };
                             good && crate::engines::e1::o_c03(&m, &orc, &Config::plain(Strategy::OnDemand), &obs).is_empty()
                         }
                     };
